@@ -1720,7 +1720,7 @@ class LangServer:
 
         # Erroneous json file syntax, or nested too deeply for the reader
         except (ValueError, RecursionError) as e:
-            msg = f'Error: "{e}" while reading "{self.config}" Configuration file'
+            msg = f'Error: "{e}" while reading "{f}" Configuration file'
             self.post_message(msg)
 
     def _drop_invalid_config_values(self, config_dict: dict) -> None:
